@@ -9,6 +9,8 @@ where
     F: FnMut(Span<'a>) -> IResult<Span<'a>, O>,
 {
     move |s: Span<'a>| {
+        #[cfg(sv_parser_verif)]
+        crate::verif::step(crate::verif::SITE_WS);
         let (s, x) = f(s)?;
         let (s, y) = many0(white_space)(s)?;
         Ok((s, (x, y)))
@@ -22,6 +24,8 @@ where
     F: FnMut(Span<'a>) -> IResult<Span<'a>, O>,
 {
     move |s: Span<'a>| {
+        #[cfg(sv_parser_verif)]
+        crate::verif::step(crate::verif::SITE_WS);
         let (s, x) = f(s)?;
         Ok((s, (x, vec![])))
     }
@@ -342,14 +346,28 @@ pub(crate) fn in_directive() -> bool {
 }
 
 pub(crate) fn begin_directive() {
+    #[cfg(sv_parser_verif)]
+    crate::verif::step(crate::verif::SITE_DIR_BEGIN);
     IN_DIRECTIVE.with(|x| x.borrow_mut().push(()));
 }
 
 pub(crate) fn end_directive() {
+    #[cfg(sv_parser_verif)]
+    crate::verif::step(crate::verif::SITE_DIR_END);
     IN_DIRECTIVE.with(|x| x.borrow_mut().pop());
 }
 
+#[cfg(sv_parser_verif)]
+pub(crate) fn verif_depths() -> (usize, usize) {
+    (
+        IN_DIRECTIVE.with(|x| x.borrow().len()),
+        CURRENT_VERSION.with(|x| x.borrow().len()),
+    )
+}
+
 pub(crate) fn clear_directive() {
+    #[cfg(sv_parser_verif)]
+    crate::verif::step(crate::verif::SITE_DIR_CLEAR);
     IN_DIRECTIVE.with(|x| x.borrow_mut().clear());
 }
 
@@ -375,6 +393,8 @@ thread_local!(
 );
 
 pub(crate) fn begin_keywords(version: &str) {
+    #[cfg(sv_parser_verif)]
+    crate::verif::step(crate::verif::SITE_KW_BEGIN);
     CURRENT_VERSION.with(|current_version| match version {
         "1364-1995" => current_version.borrow_mut().push(Version::Ieee1364_1995),
         "1364-2001" => current_version.borrow_mut().push(Version::Ieee1364_2001),
@@ -392,6 +412,8 @@ pub(crate) fn begin_keywords(version: &str) {
 }
 
 pub(crate) fn end_keywords() {
+    #[cfg(sv_parser_verif)]
+    crate::verif::step(crate::verif::SITE_KW_END);
     CURRENT_VERSION.with(|current_version| {
         current_version.borrow_mut().pop();
     });
@@ -405,6 +427,8 @@ pub(crate) fn current_version() -> Option<Version> {
 }
 
 pub(crate) fn clear_version() {
+    #[cfg(sv_parser_verif)]
+    crate::verif::step(crate::verif::SITE_KW_CLEAR);
     CURRENT_VERSION.with(|current_version| {
         current_version.borrow_mut().clear();
     });
